@@ -14,7 +14,7 @@ VARIABLE edits
 MCFiles   == <<"932100-chain1", "932100", "932110">>
 MCSources == {"store", "loadonly", "define", "refonly", "flagsprefix", "plain", "unclosed", "incl",
               \* one per fault class of C16, at top level, in a block and in an include
-              "missinginc", "malformed", "unknownproc", "badcmdline", "strayend", "badflag", "badflagU", "oddpairs", "inblock", "ininclude", "flaginc",
+              "missinginc", "malformed", "unknownproc", "badcmdline", "strayend", "badflag", "badflagU", "oddpairs", "inblock", "ininclude", "flaginc", "badcmdlineU",
               \* programs whose result depends on what an include / exclude file is parsed WITH
               "exA", "exB", "incpairs",
               \* compiles and formats, but `format --check' objects to it whatever its layout
@@ -39,7 +39,7 @@ InitSrcsAll == { Assign("store", "loadonly", "plain"),      \* a stored name mus
 
 InitSrcsQuick == { Assign("store", "loadonly", "plain"), Assign("define", "refonly", "none"), Assign("exA", "exB", "incpairs"),
                    Assign("plain", "unclosed", "define"), Assign("badcmdline", "strayend", "flagsprefix"),
-                   Assign("incl", "badflagU", "oddpairs"), Assign("malformed", "missinginc", "unknownproc"), Assign("inblock", "upperi", "ininclude"), Assign("flaginc", "plain", "store") }
+                   Assign("incl", "badflagU", "oddpairs"), Assign("malformed", "missinginc", "unknownproc"), Assign("inblock", "upperi", "ininclude"), Assign("flaginc", "badcmdlineU", "store") }
 InitSrcs == IF Full THEN InitSrcsAll \cup InitSrcsQuick ELSE InitSrcsQuick
 
 Init == /\ src \in InitSrcs
